@@ -148,4 +148,8 @@ def full_config(draw, names, start, end, alpha_kinds=('fixed', 'single', 'topn',
         cfg['burn_in'] = v
         labels.append('burn_' + lab)
     cfg['alpha'] = draw(alpha_cfg(list(alpha_kinds), assets, siz['long_only']))
+    pid = draw(st.sampled_from([None, None, None, 'main', '7', 'zz-2']))
+    if pid:
+        cfg['portfolio_id'] = pid
+        labels.append('custom_portfolio_id')
     return cfg, sorted(set(labels))
